@@ -601,8 +601,10 @@ class Ctx:
         }
         if discharged == 0:
             ev["coverage"]["discharged"] = 0
-        os.makedirs(os.path.join(VERIF, "evidence"), exist_ok=True)
-        json.dump(ev, open(os.path.join(VERIF, "evidence", "%s.json" % self.pid), "w"), indent=1, ensure_ascii=False)
+        # evidence/ describes runs against /repo only; a run against another tree (SAKURA_REPO) writes beside the caches
+        evdir = os.path.join(VERIF, "evidence") if not os.environ.get("SAKURA_REPO") else os.path.join(VERIF, ".cache", "evidence_other_tree")
+        os.makedirs(evdir, exist_ok=True)
+        json.dump(ev, open(os.path.join(evdir, "%s.json" % self.pid), "w"), indent=1, ensure_ascii=False)
 
 
 TRUSTED_BASE = [
